@@ -67,6 +67,43 @@ def _strip_cast(t):
     return t
 
 
+def _deep_mentions(t, p):
+    if t == p:
+        return True
+    return isinstance(t, tuple) and any(_deep_mentions(x, p) for x in t)
+
+
+def _bypass_sound(st, I, tr):
+    """a return in front of the word loop: a & a == a and a | a == a, so `if self.data == rhs.data` may hand back self for
+    and / or (and leave self alone for &= / |=); nothing of the kind holds for xor or not"""
+    if tr not in ("BitAnd", "BitOr", "BitAndAssign", "BitOrAssign"):
+        return False
+    p1, p2 = ("param", 1, I.names.get(1)), ("param", 2, I.names.get(2))
+    same = False
+    for f in st.facts:
+        t = f[1]
+        if f[0] in ("eq", "ne") and isinstance(t, tuple) and t and t[0] == "call" and "PartialEq" in str(t[1]) and str(t[1]).endswith(("::eq", "::ne")):
+            truth = (f[0] == "eq") == bool(f[2])
+            if str(t[1]).endswith("::ne"):
+                truth = not truth
+            ments = [_deep_mentions(t, p) for p in (p1, p2)]
+            if truth and all(ments):
+                same = True
+    if not same:
+        return False
+    if any(e.kind == "store" and _deep_mentions(e.place, p1) for e in st.event_list()):
+        return False
+    if tr.endswith("Assign"):
+        return True
+    r = util.ret_term(st)
+    # the value handed back is self (a clone or a copy of *self)
+    while isinstance(r, tuple) and r and r[0] == "call" and str(r[1]).endswith("Clone::clone"):
+        r = [x for x in r[2] if not (isinstance(x, tuple) and x and x[0] == "mem")][0]
+    from ..absint import strip_mem
+    r = strip_mem(r)
+    return r in (("ref", ("deref", p1)), p1, ("load", None, ("deref", p1)))
+
+
 def _skips_a_round(backs, tr=None):
     """some path through the loop body neither applies a word operator nor stores anything: position k is skipped.
     One skip is the operator itself: for AND into a zero-initialised result, a round whose facts say that one of the
@@ -610,6 +647,17 @@ def check(col, prog, tier, profile, fixture=None):
             # the loop over the words may sit in a private helper (possibly taking the word operation as a closure)
             backs = [s for _uid, l in I.inl_back_groups for s in l]
         key = "%s|wordwise" % fk(b)
+        # return paths that never enter the word loop (a fast path in front of it)
+        fin_loop = [st_ for st_ in I.final_states if any(e.kind == "loop" for e in st_.event_list())]
+        bypass = [st_ for st_ in I.final_states if not any(e.kind == "loop" for e in st_.event_list())] if fin_loop else []
+        bad_bypass = None
+        for st_ in bypass:
+            if not _bypass_sound(st_, I, tr):
+                bad_bypass = st_
+                break
+        if bad_bypass is not None:
+            col.violation("K3" + sfx, "%s|fast-path" % fk(b), b.loc(), "%s returns on a path that never runs the word loop (%s): for %s that is only right when both operands are the same set and the operator is idempotent (and / or), never for xor" % (b.path, "; ".join("%s %s %s" % (f[0], tstr(f[1])[:60], f[2]) for f in bad_bypass.facts if f[0] != "imp")[:160], tr))
+            continue
         alt = _wordwise_semantic(crate, I, b, tr, backs)
         if alt is None or not alt[0]:
             alt2 = _wordwise_alt(crate, I, b, tr, backs)
